@@ -282,6 +282,7 @@ func runC11(c *Ctx) {
 	// ---- R5 ----
 	c.c11Causes(parse)
 	c.rejectionGuardsLive("R5", "CER")
+	c.anyApplicationSuffices("R5")
 	c.acceptSkeleton("R5", "CER", false)
 }
 
@@ -901,5 +902,92 @@ func (c *Ctx) settingsFieldsOf(v ssa.Value, out map[string]bool, d int, seen map
 				c.settingsFieldsOf(cs.Common().Args[i], out, d+1, seen)
 			}
 		}
+	}
+}
+
+// anyApplicationSuffices: "at least one advertised application is supported" — wherever the application
+// validator is applied to the members of a list in a loop, a member that fails must not end the scan: no return
+// that can carry a non-nil error lies inside such a loop (a later member may still match).
+func (c *Ctx) anyApplicationSuffices(rule string) {
+	r := c.R
+	val := c.P.Method("diam/sm/smparser", "Application", "validate")
+	if val == nil {
+		r.Trivial(rule, "smparser.Application:scan-all", "-", "no per-application validator method found")
+		return
+	}
+	n := 0
+	for _, f := range c.P.LibraryFuncs() {
+		if pkgOf(f).Path() != pkgSMParser {
+			continue
+		}
+		loops := flow.Loops(f)
+		for _, ci := range flow.CallInstrs(f) {
+			if flow.StaticCallee(ci) != val {
+				continue
+			}
+			l := flow.InnermostLoop(loops, ci)
+			if l == nil {
+				// a call whose branch leaves the loop at once is still written in the loop body
+				for _, cand := range loops {
+					for b := range cand.Blocks {
+						if b != cand.Head && b.Dominates(ci.Block()) {
+							l = cand
+						}
+					}
+				}
+			}
+			if l == nil {
+				continue
+			}
+			n++
+			key := fname(f) + ":scan-all-members"
+			var bad ssa.Instruction
+			flow.Instrs(f, func(in ssa.Instruction) {
+				ret, ok := in.(*ssa.Return)
+				if !ok || len(ret.Results) == 0 || bad != nil {
+					return
+				}
+				// a return written inside the loop body: its block is dominated by a body block of the loop
+				inBody := false
+				for b := range l.Blocks {
+					if b != l.Head && b.Dominates(ret.Block()) {
+						inBody = true
+					}
+				}
+				if !inBody {
+					return
+				}
+				ev := ret.Results[len(ret.Results)-1]
+				if !isErrorType(ev.Type()) {
+					return
+				}
+				definitelyNil := true
+				for _, s := range flow.SpillSources(ev) {
+					if !flow.IsNilConst(s) {
+						// nil on this edge?
+						isNil := false
+						for _, g := range flow.Guards(ret) {
+							if rl, ok := condRel(g.If.Cond, g.Taken); ok && rl.op == token.EQL && ((rl.a == s && flow.IsNilConst(rl.b)) || (rl.b == s && flow.IsNilConst(rl.a))) {
+								isNil = true
+							}
+						}
+						if !isNil {
+							definitelyNil = false
+						}
+					}
+				}
+				if !definitelyNil {
+					bad = ret
+				}
+			})
+			if bad != nil {
+				r.Fail(rule, key, c.pos(bad), "the scan over the advertised applications returns with a possible failure before every member was examined: a CER whose first application is unknown is refused although a later one is common (and vice versa for metadata)")
+			} else {
+				r.Ok(rule, key, c.pos(ci), "no failing return inside the loop over the advertised applications")
+			}
+		}
+	}
+	if n == 0 {
+		r.Trivial(rule, "smparser.Application:scan-all", "-", "the validator is not applied in a loop")
 	}
 }
